@@ -34,6 +34,11 @@ RULES = [
 ]
 
 
+RULES.append(("R5", "smooth/detail/utils.hpp", r"class pairwise_transform_view : public std::ranges::view_interface<pairwise_transform_view<R, F>>",
+              "class pairwise_transform_view : public std::ranges::view_base", 1))
+RULES.append(("R4", "smooth/spline/detail/bspline_impl.hpp",
+              r"m_ctrl_pts\s*\n\s*\| std::views::drop\((.*)\)[ \t]*\n\s*\| std::views::take\((.*)\)[ \t]*(?://[^\n]*)?\n\s*\| std::views::transform\((.*)\),[ \t]*\n",
+              r"::verif_rt::window(m_ctrl_pts, \1, \2, \3),\n", 1))
 RULES.append(("R3", "smooth/manifolds/submanifold.hpp", r"using Scalar      = man<M>::Scalar;", "using Scalar      = typename man<M>::Scalar;", 1))
 
 
